@@ -145,6 +145,18 @@ def main():
         if ck.enough():
             break
         ck.guard(run_case, ck, gen_case(ck, 1200 if not ck.thorough else 20000))
+    # states with the same neighbour under several generators, queried deep inside layers of a few dozen states
+    for _ in range(14 if not ck.thorough else 300):
+        if ck.enough():
+            break
+        gd = graphs.duplicate_neighbour_def(ck.rng)
+        layers = gd.brute_layers(cap=3000)
+        if layers is None or len(layers) < 3:
+            continue
+        big = max(range(len(layers)), key=lambda i: len(layers[i]))
+        qs = [list(ck.rng.choice(layers[min(len(layers) - 1, big + 1)])) for _ in range(4)] + [list(ck.rng.choice(layers[big])) for _ in range(3)] + [list(ck.rng.choice(layers[-1]))]
+        ck.guard(run_case, ck, {"gd": gd.to_json(), "cfg": graphs.gen_cfg(ck.rng, gd), "D": len(layers), "queries": qs, "store": None, "nobatch": False})
+        ck.count("duplicate-neighbour-graphs")
     ck.assumptions = ["hash injective on the ball, the query and its inverse-neighbours (H2 events are violations)", "max_diameter >= 1 semantics: D = 0 is passed as max_diameter=0 and yields the one-layer ball"]
     ck.finish(rule="generated definitions with constructible inverse x ball depth D in {0, 1, ecc/2, ecc-1, ecc, ecc+2, random} x queries inside / on the boundary of / outside the ball and outside the orbit; judged by Spec distances (proven reference BFS) and replay of the path with plain integer arithmetic")
 
